@@ -87,6 +87,10 @@ func mercSlack(pj projT, x s2.Point) float64 {
 
 func randTol(r *rand.Rand, length float64) float64 {
 	lo := math.Max(1e-13, length*length/1e8)
+	if r.Intn(60) == 0 {
+		// a deep subdivision now and then: chains of up to a few 10^5 vertices (more than 2^15 pieces per edge)
+		return math.Max(1e-13, length*length/3e11)
+	}
 	if lo >= 1 {
 		return 1
 	}
